@@ -17,3 +17,6 @@ CONSTANTS
  Dev_UidSubtreeUnchecked = FALSE
  Dev_TopKeepsParent = FALSE
  MaxDel = 1
+ UidKey <- JoinDash
+ KeyForms = {"id"}
+ Dev_KeyUnchecked = FALSE
